@@ -1,4 +1,5 @@
 import SparseSpace.Properties.C03
+import SparseSpace.Properties.C03gen
 #print axioms SparseSpace.C03.threshold_mono
 #print axioms SparseSpace.C03.subValue_fuel_enough
 #print axioms SparseSpace.C03.subValue_loops_terminate
@@ -9,3 +10,18 @@ import SparseSpace.Properties.C03
 #print axioms SparseSpace.C03.dimwise_nodal_exact
 #print axioms SparseSpace.C03.dimwise_nodal_exact_no_boundary
 #print axioms SparseSpace.C03.all_histories
+-- translator tie (Properties/C03gen.lean): definitions generated from spatiallyAdaptiveSingleDimension2.py by tools/py2lean (spec dimwise.json) agree with Model/DimWise
+#print axioms SparseSpace.C03gen.modify_agrees
+#print axioms SparseSpace.C03gen.is_child_agrees
+#print axioms SparseSpace.C03gen.count_agrees
+#print axioms SparseSpace.C03gen.v3_rounding_agrees
+#print axioms SparseSpace.C03gen.max_level_agrees
+#print axioms SparseSpace.C03gen.max_level_cached_agrees
+#print axioms SparseSpace.C03gen.subtraction_value_agrees
+#print axioms SparseSpace.C03gen.subtraction_value_full
+#print axioms SparseSpace.C03gen.cache_after
+#print axioms SparseSpace.C03gen.gen_threshold_mono
+#print axioms SparseSpace.C03gen.gen_fuel_enough
+#print axioms SparseSpace.C03gen.update_coarsening_agrees
+#print axioms SparseSpace.C03gen.raise_lmax_agrees
+#print axioms SparseSpace.C03gen.gen_raise_lmax_ends
